@@ -18,6 +18,7 @@ GInit == Init /\ h = <<>> /\ done = FALSE
 GPut == Go /\ Put /\ h' = Append(h, [a |-> "put", s |-> next, torn |-> FALSE] @@ Obs)
 GPutQ == Go /\ \E big \in BOOLEAN : PutQ(big) /\ h' = Append(h, [a |-> IF big THEN "putbig" ELSE "put", s |-> next, torn |-> FALSE] @@ Obs)
 GBgRun == Go /\ BgRun /\ h' = Append(h, [a |-> "bgrun", s |-> 0, torn |-> FALSE] @@ Obs)
+GRetainCount == Go /\ RetainCount /\ h' = Append(h, [a |-> "retaincount", s |-> 0, torn |-> FALSE] @@ Obs)
 GFlush == Go /\ Flush /\ h' = Append(h, [a |-> "flush", s |-> 0, torn |-> FALSE] @@ Obs)
 GAck == Go /\ \E n \in 1..MaxSeq : Ack(n) /\ h' = Append(h, [a |-> "ack", s |-> n, torn |-> FALSE] @@ Obs)
 GDie == Go /\ \E t \in BOOLEAN : Die(t) /\ h' = Append(h, [a |-> "die", s |-> 0, torn |-> t] @@ Obs)
@@ -26,6 +27,6 @@ GRecover == Go /\ Recover /\ h' = Append(h, [a |-> "recover", s |-> 0, torn |-> 
 GEmit == /\ Len(h) = GenLen /\ ~done /\ PrintT(<<"BEHAVIOUR", ToJson(h)>>)
          /\ done' = TRUE /\ UNCHANGED <<vars, h>>
 
-GNext == GEmit \/ GPut \/ GPutQ \/ GBgRun \/ GFlush \/ GAck \/ GDie \/ GRecover
+GNext == GEmit \/ GPut \/ GPutQ \/ GBgRun \/ GRetainCount \/ GFlush \/ GAck \/ GDie \/ GRecover
 GSpec == GInit /\ [][GNext]_gvars
 =============================================================================
